@@ -11,6 +11,9 @@ import lspclient as lc
 URI = "file:///verif/x.spl"
 DOC = "proc main() {\n    var cnt: int;\n    cnt := 1;\n    printi(cnt);\n}\n"
 
+# a document whose analysis takes seconds (debug build): requests pipelined behind it wait for the broker
+BIG_DOC = "".join("proc p%d(a: int) {\n  var x: int;\n  x := a + %d;\n  printi(x);\n}\n" % (i, i) for i in range(8000)) + "proc main() { }\n"
+
 INIT_PARAMS = {"capabilities": {}}
 INIT_PARAMS_DIAG = {"capabilities": {"textDocument": {"publishDiagnostics": {}}}}
 # clients that did NOT announce publishDiagnostics, in several shapes (a `textDocument` object alone is no
@@ -74,6 +77,8 @@ def letter_message(letter, next_id, rng):
         return lc.request(next_id, m, {}), f"R{next_id}:{m}"
     if letter == "D":
         return lc.notification("textDocument/didOpen", {"textDocument": {"uri": URI, "languageId": "spl", "version": 1, "text": DOC}}), "N:textDocument/didOpen"
+    if letter == "B":
+        return lc.notification("textDocument/didOpen", {"textDocument": {"uri": URI, "languageId": "spl", "version": 1, "text": BIG_DOC}}), "N:textDocument/didOpen"
     if letter == "N":
         m = UNKNOWN_NOTE[rng.randrange(len(UNKNOWN_NOTE))]
         return lc.notification(m, {}), f"N:{m}"
@@ -128,6 +133,8 @@ def c18_cases(run):
         seqs.append(rng.choice(["IJ", "IJD"]) + "S" + "".join(rng.choice("QQU") for _ in range(60 + 70 * k)) + "X")
     # and many requests in the main phase
     seqs.append("IJD" + "Q" * 150 + "SX")
+    # requests pipelined behind a document whose analysis takes seconds, then more traffic and a clean shutdown
+    seqs += ["IJBQQQSX", "IJBQDQUQSX"]
     sessions = [build_session(s, rng) for s in seqs]
     violations = []
 
@@ -136,7 +143,7 @@ def c18_cases(run):
         # every sixth session in another legal header style (Content-Type first / last, no blank after the colon)
         style = [1, 2, 4][(k // 5) % 3] if k % 5 == 0 else 0
         data = b"".join(lc.frame(m, style) for m in msgs)
-        r = lc.run_session([data], timeout=10.0 if len(msgs) < 40 else 30.0)
+        r = lc.run_session([data], timeout=120.0 if len(data) > 100000 else 10.0 if len(msgs) < 40 else 30.0)
         return r
 
     pairs = []
@@ -384,7 +391,11 @@ def c20_cases(run):
         bad = lambda v: "proc main() {\n" + "".join(f"  undefined{v}_{j} := 1;\n" for j in range(nerr)) + "}\n"
         flood = [f"O0={_hex(bad(0))}"] + [f"C0=F:{_hex(bad(v))}" for v in range(1, 200 + 100 * k)] + [f"C0=F:{_hex('proc main() {}' + chr(10))}", "P0"]
         hists.append((flood, True))
-    slow = [i % 3 == 1 or i >= n_hist for i in range(len(hists))]
+    # a document whose analysis takes seconds, with requests pipelined behind its open and behind an edit of it:
+    # they are answered from the document as it is after the notifications that precede them, however long that takes
+    n_small = len(hists)
+    hists.append(([f"O0={_hex(BIG_DOC)}", "H0", "U", "H0", "C0=R:0:0:0:0:" + _hex("// c\n"), "H0", "O1=" + _hex(C20_TEXTS[0]), "H1", "P1", "H0"], True))
+    slow = [i % 3 == 1 or n_hist <= i < n_small for i in range(len(hists))]
     # sequential in-process reference
     seq_in = "\n".join(f"SEQ {1 if d else 0} " + " ".join(t) for t, d in hists) + "\n"
     p = subprocess.run([HARNESS, "run"], input=seq_in, stdout=subprocess.PIPE, stderr=subprocess.DEVNULL, text=True, env=ENV, timeout=3000)
@@ -401,7 +412,7 @@ def c20_cases(run):
     with ThreadPoolExecutor(max_workers=4) as ex:
         results = list(ex.map(one, list(zip(hists, slow))))
     n_msgs = 0
-    for (toks, d), ref, r in zip(hists, seq_out, results):
+    for hk, ((toks, d), ref, r) in enumerate(zip(hists, seq_out, results)):
         line = f"{1 if d else 0} " + " ".join(toks)
         n_msgs += len(toks)
         if ref.startswith("PANIC") or not ref.startswith("["):
@@ -435,6 +446,8 @@ def c20_cases(run):
         if not d and any("d" in e for e in got):
             violations.append(("binary", "SPECNETTEXT " + line, "diagnostics published", "", "diagnostics published to a client that did not announce support"))
             continue
+        if hk >= n_small:
+            continue   # compared with the sequential execution above; too large for the Lean network model's line
         probes = " ".join(f"R{e['id']}=" + ("null" if e["r"] is None else _hex(e["r"])) for e in got if "id" in e and toks[e["id"]][0] == "P")
         pairs.append(("SPECNETTEXT " + line, probes))
         pairs.append((f"JUDGENETSCHED {1 if d else 0} {6 if not thorough else 12} " + " ".join(toks[:80]), "ok"))
